@@ -237,3 +237,13 @@ Theorem C16_request_records_sound_param_changes :
         /\ (has c (expq_h s) = false -> c_bdone rc = true)).
 Proof. exact ReachPProps.request_records_sound_P. Qed.
 Print Assumptions C16_request_records_sound_param_changes.
+
+Theorem C16_no_orphans_inside_end_block_param_changes : forall cfg s,
+  ReachP cfg s -> height s < HEIGHT_BOUND ->
+  (forall k, C16Proofs.no_orphans
+               (fold_left (expire_one cfg) (firstn k (due (expq s) (height s))) s))
+  /\ (let sx := fold_left (expire_one cfg) (due (expq s) (height s)) s in
+      forall k, C16Proofs.no_orphans
+                  (fold_left (new_one cfg) (firstn k (due (newq sx) (height sx))) sx)).
+Proof. exact ReachPProps.no_orphans_inside_end_block_P. Qed.
+Print Assumptions C16_no_orphans_inside_end_block_param_changes.
